@@ -141,6 +141,20 @@ def q_joiner(q, who, conn):
     conn.close()
 
 
+def conn_sender(w, sizes, doomed):
+    """sends message m of sizes[m-1] bytes (alternating the send API), then closes"""
+    from harness.conn import payload
+    for m, n in enumerate(sizes, 1):
+        data = payload(m, n)
+        if m % 2:
+            w.send_bytes(data)
+        else:
+            w.send_bytes(memoryview(b'##' + data + b'!!'), 2, n)
+    w.close()
+    if doomed:
+        time.sleep(30)
+
+
 def nested_scenario(conn, method, how, si):
     from harness import procs
     try:
